@@ -150,6 +150,14 @@ def meta_value(m):
 
 
 # --------------------------------------------------------------------------- engine
+def split_modifies(m):
+    """'obj.field if cond' -> ('obj.field', 'cond');  'obj.field' -> ('obj.field', None)."""
+    if ' if ' in m:
+        a, b = m.split(' if ', 1)
+        return a.strip(), b.strip()
+    return m, None
+
+
 AUTO_FIELDS: set = set()      # 'Class.field' keys declared on the fly (unknown to the contracts)
 
 
@@ -348,12 +356,14 @@ class Engine:
                 continue
             if m == '*' or m.startswith('global:') or m == 'fresh' or m.startswith('ghost:'):
                 continue
+            m, cond = split_modifies(m)
             node = ast.parse(m, mode='eval').body
             if not isinstance(node, ast.Attribute):
                 raise SpecError(f'modifies clause must be obj.field: {m}')
             obj = self.eval_spec(node.value, self.init_state, self.init_state)
             key, _ = self.field_decl(obj.kind.cls if isinstance(obj.kind, KRef) else None, node.attr)
-            allowed.setdefault(key, []).append(obj.term)
+            ct = self.truth(self.eval_spec(ast.parse(cond, mode='eval').body, self.init_state, self.init_state)) if cond else None
+            allowed.setdefault(key, []).append((obj.term, ct))
         self._frame_spec = (allowed, anyobj)
         return self._frame_spec
 
@@ -370,7 +380,7 @@ class Engine:
         if init is None:
             return None
         r = z3.Int(fresh_name('r'))
-        excl = [r != o for o in allowed.get(key, [])]
+        excl = [(r != o) if ct is None else z3.Not(z3.And(ct, r == o)) for o, ct in allowed.get(key, [])]
         return Vm.forall([r], z3.Implies(z3.And(r > 0, r < z3.Int('alloc0'), *excl), z3.Select(arr, r) == z3.Select(init, r)),
                          patterns=[z3.Select(arr, r)])
 
@@ -415,6 +425,22 @@ class Engine:
     def heap_closed(self, st, key, arr, kind, nxt):
         """Heap closedness for a reference-typed field array: every stored reference is allocated and
         conforms to the declared class (one quantified fact per array instead of one fact per read)."""
+        if isinstance(kind, KList) and isinstance(kind.elem, KRef) and not key.startswith('$'):
+            # list-valued field: the elements of every stored list are allocated objects of the element class
+            ck = ('closedl', key, arr.get_id())
+            if ck in self.uf_cache:
+                return
+            self.uf_cache[ck] = True
+            r, j = z3.Int(fresh_name('hr')), z3.Int(fresh_name('hj'))
+            lo = ListOps(kind)
+            el = lo.at(z3.Select(arr, r), j)
+            wf = self.ref_wf(st, el, kind.elem, nxt)
+            f = Vm.forall([r, j], z3.Implies(z3.And(r > 0, r < nxt, j >= 0, j < lo.len(z3.Select(arr, r))), wf), patterns=[el])
+            if st is None:
+                self.facts.append(f)
+            else:
+                self.fact(st, f)
+            return
         if not isinstance(kind, KRef) or key.startswith('$'):
             return
         ck = ('closed', key, arr.get_id())
@@ -707,6 +733,10 @@ class Engine:
             for cl in c.ensures:
                 if cl.bounded:
                     continue      # decided by the bounded run-time check only (never counted as proved)
+                if cl.composed:
+                    self.assumptions.add(f'clause {cl.label} of {c.key} is not proved in its body: it is the composition of the '
+                                         f'clauses named in the contract and assumption S8 (DESIGN 13.9); callers rely on it')
+                    continue
                 r = self.eval_spec(cl.node, res_state, self.init_state, result=res_val)
                 self.oblige(res_state, self.truth(r), f'ensures:{cl.label}', kind='ensures',
                             text=cl.text, props=cl.props)
@@ -769,25 +799,7 @@ class Engine:
         c = self.contract
         if c.modifies == ['*']:
             return
-        allowed: dict[str, list] = {}
-        anyobj = set()
-        for m in c.modifies:
-            if m.startswith('*.'):
-                anyobj.add(m[2:])
-                continue
-            if m.startswith('global:') or m == 'fresh' or m.startswith('ghost:'):
-                continue
-            node = ast.parse(m, mode='eval').body
-            if not isinstance(node, ast.Attribute):
-                raise SpecError(f'modifies clause must be obj.field: {m}')
-            obj = self.eval_spec(node.value, self.init_state, self.init_state)
-            key, _ = self.field_decl(obj.kind.cls if isinstance(obj.kind, KRef) else None, node.attr)
-            allowed.setdefault(key, []).append(obj.term)
-        for target, _ in c.ghost_sets:
-            node = ast.parse(target, mode='eval').body
-            obj = self.eval_spec(node.value, self.init_state, self.init_state)
-            key, _k = self.field_decl(obj.kind.cls if isinstance(obj.kind, KRef) else None, node.attr)
-            allowed.setdefault(key, []).append(obj.term)
+        allowed, anyobj = self.frame_spec()
         a0 = z3.Int('alloc0')
         for key, arr in st.heap.items():
             if key in AUTO_FIELDS:
@@ -821,7 +833,7 @@ class Engine:
             if key in anyobj or fname in anyobj:
                 continue
             r = z3.Int(fresh_name('r'))
-            excl = [r != o for o in allowed.get(key, [])]
+            excl = [(r != o) if ct is None else z3.Not(z3.And(ct, r == o)) for o, ct in allowed.get(key, [])]
             goal = Vm.forall([r], z3.Implies(z3.And(r > 0, r < a0, *excl),
                                              z3.Select(arr, r) == z3.Select(init, r)))
             self.oblige(st, goal, f'frame:{key}', kind='frame',
@@ -1086,7 +1098,19 @@ class Engine:
 
     def assign_subscript(self, t: ast.Subscript, v: V, st: State):
         """container[k] = v with value semantics: write back through the l-value path."""
+        # dst.transpose(0, 1)[i0, i1] = v : a write through the transposed view of dst
+        tv_ = t.value
+        if (isinstance(tv_, ast.Call) and isinstance(tv_.func, ast.Attribute) and tv_.func.attr == 'transpose'
+                and len(tv_.args) == 2 and all(isinstance(a, ast.Constant) for a in tv_.args)
+                and sorted(a.value for a in tv_.args) == [0, 1]):
+            base = self.eval(tv_.func.value, st)
+            if self.T.is_tensor(base):
+                self.T.tensor_setitem(self, st, base, t.slice, v, transposed=True)
+                return
         cont = self.eval(self._load(t.value), st)
+        if self.T.is_tensor(cont):
+            self.T.tensor_setitem(self, st, cont, t.slice, v)
+            return
         k = self.eval(t.slice, st)
         if st.dead:
             return
@@ -1489,7 +1513,7 @@ class Engine:
             elif m == 'fresh':
                 continue
             else:
-                f = m.rsplit('.', 1)[1]
+                f = split_modifies(m)[0].rsplit('.', 1)[1]
                 for (c, fld) in FIELDS:
                     if fld == f:
                         keys.add(f'{c}.{fld}')
@@ -2858,12 +2882,17 @@ class Engine:
                 continue
             if m.startswith('global:'):
                 raise Unsupported('callee modifies a module global')
+            m, cond = split_modifies(m)
             node = ast.parse(m, mode='eval').body
             obj = self.eval_spec(node.value, pre, pre)
             key, kind = self.field_decl(obj.kind.cls if isinstance(obj.kind, KRef) else None, node.attr)
             arr = self.heap_array(st, key, kind)
             nv = fresh(kind, 'hv')
-            st.heap[key] = z3.Store(arr, obj.term, nv.term)
+            if cond:
+                ct = self.truth(self.eval_spec(ast.parse(cond, mode='eval').body, pre, pre))
+                st.heap[key] = z3.Store(arr, obj.term, z3.If(ct, nv.term, z3.Select(arr, obj.term)))
+            else:
+                st.heap[key] = z3.Store(arr, obj.term, nv.term)
         nx = z3.Int(fresh_name('alloc'))
         self.fact(st, nx >= st.nxt)
         st.nxt = nx
